@@ -177,6 +177,12 @@ def generate(rng: random.Random, tier: str) -> dict:
     config["precondition_frequency"] = freq
     config["start_preconditioning_step"] = rng.choice([-1, freq, freq + 1, freq + 2])
     config["pt2"] = {"backend": rng.choice(["eager", "aot_eager"]), "dynamic": rng.choice([False, False, True, None])}
+    if rng.random() < 0.15:
+        # long averaging windows: 1 - beta^t cancels, so the precision in which a step-dependent scalar is evaluated (a python
+        # float outside the traced region, a float32 0-d tensor inside it) becomes visible in the first steps
+        config["betas"][0] = rng.choice([0.999, 0.9999])
+        config["beta3"] = rng.choice([-1.0, config["betas"][0]])
+        config["use_bias_correction"] = True
     dtype = rng.choice(["float32", "float32", "float64", "bfloat16"])
     if dtype == "bfloat16":
         # low-precision parameters and gradients with float32 factor matrices: scalar-times-tensor products are
